@@ -6,6 +6,7 @@ min- / max-width and box-sizing in a 40px containing block: the used values of 1
 {-3, 0, 5}, top/bottom borders and heights {auto, 0, 4}: positions by margin collapsing (8.3.1), HeightsOK.
 Binding: every scenario is laid out by layout.Layout on one tall page and the used margins / width / x resp. the border
 box y / height of every box must equal the specification's integers (1/64 px).
+Variant: vertical margins spelled as percentages of the containing block's width (100px).
 """
 import os
 from vlib import MachineryError
